@@ -1512,7 +1512,7 @@ func (g *dnGen) translate(f *types.Func) (res *dnFunc, why string) {
 	}()
 	base := &lpTr{g: g.lp, p: p, info: p.TypesInfo, fd: fd, cache: map[ast.Node][]string{}}
 	t := &dnTr{lpTr: base, dg: g, ptrBytes: map[*types.Var]bool{}, labelOf: map[ast.Stmt]string{}}
-	base.extTy, base.extExpr, base.extRoot, base.extCond, base.extCallAssigns = t.xTy, t.xExpr, t.xRoot, t.xCond, t.xCallAssigns
+	base.dnsTy, base.dnsExpr, base.dnsRoot, base.dnsCond, base.dnsCallAssigns = t.xTy, t.xExpr, t.xRoot, t.xCond, t.xCallAssigns
 	fn := &dnFunc{f: f, key: lpFuncKey(f), lean: dnLeanFn(f)}
 	t.dfn = fn
 	base.fn = &lpFunc{key: fn.key, lean: fn.lean}
